@@ -265,4 +265,38 @@ def consensus (labels : List Nat) (es : WEdges) : Option (List Nat) :=
   let tab := consTable labels.length es
   consWalk labels tab (labels.length + 2) (some (argmaxLast tab)) []
 
+/-! ## Certificate for "the operation list walks the graph in topological order"
+
+`bodyB rk n0 head (rk head) false ops` is the hypothesis of `addAlignment_acyclic_partial`
+(`RbV/Lemmas/PoaAcyclic.lean`); `topoRank` is the rank function the driver evaluates it with. -/
+
+/-- `b` bounds the rank of `prev`, `nc` is the value of `edge_not_connected`; every named node (and the head,
+when an edge into it is due) must lie above `b` -/
+def bodyB (rk : Nat → Nat) (n0 head : Nat) : Nat → Bool → List POp → Bool
+  | _, _, [] => true
+  | b, false, .m none :: r => bodyB rk n0 head b false r
+  | b, true, .m none :: r => decide (b < rk head) && bodyB rk n0 head (rk head) false r
+  | b, nc, .m (some (_, p)) :: r => decide (p < n0) && decide (b < rk p) && bodyB rk n0 head (rk p) nc r
+  | b, nc, .i (some _) :: r => bodyB rk n0 head (b + 1) nc r
+  | _, false, .i none :: r => bodyB rk n0 head 0 true r
+  | b, true, .i none :: r => bodyB rk n0 head (b + 1) true r
+  | b, nc, .d _ :: r => bodyB rk n0 head b nc r
+  | b, nc, .x _ :: r => bodyB rk n0 head b nc r
+  | b, nc, .y _ _ :: r => bodyB rk n0 head b nc r
+
+/-- `K · (1 + position in topo)`; nodes `topo` does not reach get rank 0 -/
+def topoRank (n : Nat) (es : WEdges) (K : Nat) : Nat → Nat :=
+  let order := topo n es
+  let ranks := order.zipIdx.foldl (init := Array.replicate n 0) fun a (v, i) => a.setIfInBounds v (K * (i + 1))
+  fun v => ranks.getD v 0
+
+/-- do the observed operations carry the certificate for this graph? -/
+def acyclicCert (g : G) (ops : List POp) : Bool :=
+  let n := g.labels.length
+  let head := (topo n g.es).headD 0
+  let rk := topoRank n g.es (ops.length + 1)
+  decide (head < n) &&
+  g.es.all (fun e => decide (e.1 < n) && decide (e.2.1 < n) && decide (rk e.1 < rk e.2.1)) &&
+  bodyB rk n head (rk head) false ops
+
 end RbV.Poa.Model
